@@ -54,6 +54,14 @@ pub fn unsafe_path_types() -> Vec<Ty> {
     v.push(Tuple(vec![Array(a(U8), 17), U32, Array(a(Str), 3)]));
     v.push(Bytes);
     v.push(BigInt);
+    // the per-stream string table (entries registered, looked up and moved as the table grows)
+    v.push(Vec(a(Dedup)));
+    v.push(Tuple(vec![Dedup, Vec(a(Dedup)), Dedup, Option(a(Dedup))]));
+    for d in crate::declgen::fixed_decls() {
+        if d.name == "FixTr" || d.name == "FixPoint" {
+            v.push(Vec(a(Adt(d))));
+        }
+    }
     v
 }
 
